@@ -500,6 +500,12 @@ def _bytes(ip, st, args, kwargs):
     if isinstance(v, (bytes, bytearray)):
         yield st, bytes(v)
         return
+    if isinstance(v, int) and not isinstance(v, bool):
+        if v < 0:
+            yield st, Raise(mk_exc(st, "ValueError", "negative count"))
+        else:
+            yield st, bytes(v)          # bytes(n): n zero bytes
+        return
     if isinstance(v, Sym) and v.kind == "bytes":
         yield st, v
         return
@@ -930,6 +936,18 @@ def _quant(ip, st, args, is_all):
         ts.append(tm.Bool(t) if isinstance(t, bool) else t.term)
     r = tm.And(*ts) if is_all else tm.Or(*ts)
     yield st, as_value("bool", r)
+
+
+@builtin("abs")
+def _abs(ip, st, args, kwargs):
+    (a,) = args
+    if kind_of(a) not in ("int", "bool"):
+        raise Unsupported("abs of a non-integer")
+    if not is_sym(a):
+        yield st, abs(int_of(a))
+        return
+    t = to_term(int_of(a))
+    yield st, as_value("int", tm.Ite(tm.Lt(t, tm.Int(0)), tm.Sub(tm.Int(0), t), t))
 
 
 @builtin("divmod")
